@@ -44,7 +44,7 @@ RULE = ("stateful cells = sampler set-up x target x warm-up length k x generator
         "A cell is non-trivial when the reference chain moves (at least two distinct states) and at least one "
         "history with a crash point was compared")
 BOUND = {
-    "quick": "stateful: 13 sampler classes in 18 set-ups, warm-up k in {0,3}, 1 generator seed, all histories with <=4 "
+    "quick": "stateful: 13 sampler classes in 19 set-ups (+1 scalar-initial-point witness cell), warm-up k in {0,3}, 1 generator seed, all histories with <=4 "
              "sampling transitions and <=2 non-advancing operations (1026 per cell); HybridGibbs: 4 set-ups, same k, "
              "<=4 transitions, <=2 reads (136 per cell); stateless: 9 sampler classes in 11 set-ups, sample(N,Nb) on "
              "{1..4}x{0..3}, sample_adapt on {10,12}x{0,2,5}; legacy Gibbs: 2 set-ups, all call sequences with parts "
@@ -103,6 +103,11 @@ def _data(cat, m=3):
 def t_gauss(cat):
     import cuqi
     return cuqi.distribution.Gaussian(refs.dyadic_vec(2, cat, scale=0.125), refs.spd_matrix(2, cat))
+
+
+def t_gauss1(cat):
+    import cuqi
+    return cuqi.distribution.Gaussian(np.zeros(1), 1.0 + 0.5 * cat)
 
 
 def t_post(cat):
@@ -180,7 +185,7 @@ def t_hier_mh(cat):
     return cuqi.distribution.JointDistribution(x, d, s)
 
 
-TARGETS = {"gauss": t_gauss, "post": t_post, "multi": t_multi, "reg": t_reg, "reg3": t_reg3, "lmrf": t_lmrf,
+TARGETS = {"gauss": t_gauss, "gauss1": t_gauss1, "post": t_post, "multi": t_multi, "reg": t_reg, "reg3": t_reg3, "lmrf": t_lmrf,
            "conj": t_conj, "lmrf_gamma": t_lmrf_gamma,
            "hier": t_hier, "hier_mh": t_hier_mh}
 
@@ -191,10 +196,13 @@ X0 = {2: np.array([0.5, -0.25]), 3: np.array([0.25, -0.5, 0.75]), 1: np.array([1
 def _stateful_setups():
     return {
         "MH/gauss": ("MH", "gauss", lambda: dict(scale=0.9, initial_point=X0[2].copy())),
-        "MH/post": ("MH", "post", lambda: dict(scale=0.6)),
+        "MH/post": ("MH", "post", lambda: dict(scale=0.3)),
+        # scalar initial point, as used throughout the repository's own tests (fixed generator seed, see cells())
+        "MH/gauss1-scalar_x0": ("MH", "gauss1", lambda: dict(scale=3.0, initial_point=3)),
         "CWMH/gauss": ("CWMH", "gauss", lambda: dict(scale=0.9, initial_point=X0[2].copy())),
         "CWMH/post": ("CWMH", "post", lambda: dict(scale=np.array([0.5, 1.0]))),
-        "PCN/post": ("PCN", "post", lambda: dict(scale=0.6, initial_point=X0[2].copy())),
+        "PCN/post": ("PCN", "post", lambda: dict(scale=0.15, initial_point=X0[2].copy())),
+        "PCN/post-x0-default": ("PCN", "post", lambda: dict(scale=0.3)),
         "MALA/gauss": ("MALA", "gauss", lambda: dict(scale=0.8, initial_point=X0[2].copy())),
         "MALA/post": ("MALA", "post", lambda: dict(scale=0.15)),
         "ULA/gauss": ("ULA", "gauss", lambda: dict(scale=0.2, initial_point=X0[2].copy())),
@@ -321,7 +329,7 @@ def _chain_of(samples_obj):
 
 
 class Log:
-    """Call-back recorder: copies the value at call time and keeps the object it was given."""
+    """Call-back recorder: copies the value at call time (later in-place alteration of the entry is then visible)."""
 
     def __init__(self):
         self.entries = []
@@ -421,7 +429,7 @@ def run_stateful(setup, cat, k, seed, ops, tmpdir):
                 np.random.set_state(rng)                # same stream position as at the crash
                 o.segs.append((k + pos, log))
                 made = 0
-        stage = "observe"
+        stage = "get_samples"
         got = _read(s, made, o)
         o.chain = [] if got is None else _chain_of(got)
         try:
@@ -555,6 +563,7 @@ def eval_stateful(cell, res):
     tmpdir = tempfile.mkdtemp(prefix="c14_%d_" % os.getpid())
     try:
         refs_ = {}
+        broken = set()
         for n in range(maxn + 1):
             r = _run_ref(setup, cat, k, seed, n, tmpdir)
             res.transitions += r.ops
@@ -574,8 +583,14 @@ def eval_stateful(cell, res):
             # list model of the uninterrupted run itself
             selfbad = _judge_stateful(r, r, k, n)
             for facet, msg in selfbad.items():
-                res.fail("C14|%s|sample|%s" % (comp, facet), "uninterrupted run warmup(%d);sample(%d): %s" % (k, n, msg))
+                if facet not in broken:
+                    broken.add(facet)
+                    res.fail("C14|%s|sample|%s" % (comp, facet),
+                             "uninterrupted run warmup(%d);sample(%d): %s (set-up %s, seed %d)" % (k, n, msg, setup, seed))
             res.evaluations += 1
+        if broken:      # the reference run itself is not a faithful record: differential verdicts would be consequences
+            res.count("reference-run-broken")
+            return
         full = refs_[maxn].chain
         res.outcomes.add("%s:k%d:moves=%s" % (setup, k, _moves(full)))
         if len({tuple(np.round(v, 12)) for v in full}) < 2:
@@ -623,7 +638,7 @@ def _run_ref(setup, cat, k, seed, n, tmpdir):
             s.sample(n)
             o.ops += 1
         o.transitions = k + n
-        stage = "observe"
+        stage = "get_samples"
         got = _read(s, k + n, o)
         o.chain = [] if got is None else _chain_of(got)
         try:
@@ -970,6 +985,9 @@ def cells(tier, seed):
     maxn = 4 if quick else 5
     out = []
     for setup in _stateful_setups():
+        if setup.endswith("scalar_x0"):     # one witness cell: generator seed 0 rejects the first proposals
+            out.append({"iface": "stateful", "setup": setup, "k": 0, "seed": 0, "cat": cat, "maxn": maxn, "maxdev": 2})
+            continue
         for k in ks:
             for sd in seeds:
                 out.append({"iface": "stateful", "setup": setup, "k": k, "seed": sd + int(seed), "cat": cat,
